@@ -213,6 +213,9 @@ func (e *dExec) step(line string) (out string) {
 		var err error
 		if e.dd {
 			err = e.dec.WriteByte(c)
+			if err == nil && e.w.lastErr != nil {
+				e.find("C18", "the destination writer failed during the call but the error is not surfaced", site, fmt.Sprintf("writer error code %d", e.w.lastCode))
+			}
 			e.delivered = len(e.w.got)
 		} else {
 			err = b.WriteByte(c)
@@ -233,6 +236,9 @@ func (e *dExec) step(line string) (out string) {
 		var err error
 		if e.dd {
 			n, err = e.dec.Write(p)
+			if err == nil && e.w.lastErr != nil {
+				e.find("C18", "the destination writer failed during the call but the error is not surfaced", site, fmt.Sprintf("writer error code %d", e.w.lastCode))
+			}
 			e.delivered = len(e.w.got)
 		} else {
 			n, err = b.Write(p)
@@ -341,6 +347,10 @@ func (e *dExec) step(line string) (out string) {
 		}
 		if err == nil && (k != len(seqs) || l != len(lits)) {
 			e.find("C17", "nil error but not everything consumed", site, fmt.Sprintf("k=%d l=%d", k, l))
+		}
+		if e.dd && err == nil && e.w.lastErr != nil {
+			e.find("C18", "the destination writer failed during the call but the error is not surfaced", site,
+				fmt.Sprintf("writer error code %d, k=%d l=%d", e.w.lastCode, k, l))
 		}
 		if !e.dd && lenBefore+n != len(b.Data) {
 			e.cnt.inc("d.wblk.shrunk")
